@@ -1,5 +1,6 @@
 import SamplyModel.Proto
 import SamplyModel.Model.ProfileSer
+import SamplyModel.Model.ProfileDecode
 /-!
 Line protocol for C03 (shared with `harness/src/bin/c03.rs`).
 
@@ -11,6 +12,8 @@ ops (strings are hex of UTF-8, `-` = empty string; `-` in a register position = 
     settid <thread> <tid>      setname <thread> <nameHex>      setpname <proc> <nameHex>
     setstart <thread> <ns>     setpstart <proc> <ns>
     lib <dst> <nameHex>        libsyms <lib> (<addr>:<size|->:<nameHex>)*      map <proc> <lib> <start> <end> <rel>
+    unmap <proc> <start>       (remove_lib_mapping)            clearmaps <proc>   (clear_process_lib_mappings)
+    kmap <lib> <start> <end> <rel>   (add_kernel_lib_mapping)   kunmap <start>     (remove_kernel_lib_mapping)
     string <dst> <hex>         cat <dst> <nameHex> <color>     subcat <dst> <cat> <nameHex>
     flabel <dst> <thread> <str> <sub> <flags>
     flabelsrc <dst> <thread> <str> <fileStr|-> <line|-> <col|-> <sub> <flags>
@@ -22,8 +25,12 @@ ops (strings are hex of UTF-8, `-` = empty string; `-` in a register position = 
     sample <thread> <ns> <stack|-> <cpuZero01>        samesample <thread> <ns>
     allocsample <thread> <ns> <stack|-> foreign=<01>   (foreign=1: thread is not the first thread of its
                                                         process and a stack is passed — the known finding)
-    mtype <dst> <typeNameHex> <cat> <formats|->        formats over u (unique-string) s (other string) n (number)
-    marker <dst> <thread> <st:k|rt:mtype> <nameStr> <str>*     one <str> per string-kind field
+    mtype <dst> <typeNameHex> <cat> <formats|->        one letter per field, all 14 `MarkerFieldFormat`s:
+        u String ("unique-string")  U|s Url  P FilePath  Z SanitizedString  (string kinds)
+        D Duration T Time S Seconds M Milliseconds C Microseconds N Nanoseconds B Bytes p Percentage
+        i|n Integer d Decimal  (number kinds)
+    marker <dst> <thread> <st:k|rt:mtype>[:<i|v|s|e>] <nameStr> <str>*     one <str> per string-kind field;
+        timing i = Instant (default), v = Interval, s = IntervalStart, e = IntervalEnd
     mstack <thread> <marker> <stack|->
     counter <dst> <proc>       csample <counter> <ns>          visible <thread>       selected <thread>
 
@@ -64,10 +71,29 @@ def hexOf (s : String) : String := bytesHex s.toUTF8.toList
 def akind? (s : String) : Option AKind :=
   if s = "ip" then some .ip else if s = "ra" then some .ra else if s = "ara" then some .ara else none
 
+/-- one letter per `MarkerFieldFormat` -/
+def mformat? (c : Char) : Option MFormat :=
+  if c = 'u' then some .string else if c = 'U' || c = 's' then some .url else if c = 'P' then some .filePath
+  else if c = 'Z' then some .sanitizedString else if c = 'D' then some .duration else if c = 'T' then some .time
+  else if c = 'S' then some .seconds else if c = 'M' then some .milliseconds else if c = 'C' then some .microseconds
+  else if c = 'N' then some .nanoseconds else if c = 'B' then some .bytes else if c = 'p' then some .percentage
+  else if c = 'i' || c = 'n' then some .integer else if c = 'd' then some .decimal else none
+
+/-- the field kinds of a format word (through the model's `MFormat.fmt` = `kind()` + the `== String` test) -/
 def fmts? (s : String) : Option (List Fmt) :=
   if s = "-" then some [] else
-  s.toList.mapM (fun c => if c = 'u' then some Fmt.u else if c = 's' then some Fmt.s
-    else if c = 'n' then some Fmt.n else none)
+  s.toList.mapM (fun c => (mformat? c).map MFormat.fmt)
+
+def timing? (s : String) : Option MTiming :=
+  if s = "i" then some .instant else if s = "v" then some .interval else if s = "s" then some .intervalStart
+  else if s = "e" then some .intervalEnd else none
+
+/-- `st:k[:tm]` / `rt:reg[:tm]` → (tag, argument, timing) -/
+def mtypeTok? (ty : String) : Option (String × String × MTiming) :=
+  match ty.splitOn ":" with
+  | [tag, a] => some (tag, a, .instant)
+  | [tag, a, tm] => (timing? tm).map (fun tm => (tag, a, tm))
+  | _ => none
 
 def syms? (ws : List String) : Option (List Sym) :=
   ws.mapM (fun w =>
@@ -145,6 +171,10 @@ def checkLine (c : Chk) (w : List String) : Option Chk :=
     pure c
   | ["map", p, l, s, e, r] => do
     c.is p .proc; c.is l .lib; let _ ← num? s; let _ ← num? e; let _ ← num? r; pure c
+  | ["kmap", l, s, e, r] => do c.is l .lib; let _ ← num? s; let _ ← num? e; let _ ← num? r; pure c
+  | ["kunmap", s] => do let _ ← num? s; pure c
+  | ["unmap", p, s] => do c.is p .proc; let _ ← num? s; pure c
+  | ["clearmaps", p] => do c.is p .proc; pure c
   | ["string", d, s] => do let _ ← unhexStr? s; c.define d .str
   | ["cat", d, n, col] => do let _ ← unhexStr? n; let _ ← num? col; c.define d .cat
   | ["subcat", d, ca, n] => do c.is ca .cat; let _ ← unhexStr? n; c.define d .sub
@@ -179,9 +209,9 @@ def checkLine (c : Chk) (w : List String) : Option Chk :=
     pure { c' with fmts := (d, f) :: c'.fmts }
   | "marker" :: d :: t :: ty :: nm :: strs => do
     c.is t .thread
-    let f ← (match ty.splitOn ":" with
-      | ["st", k] => (num? k).bind staticFormats
-      | ["rt", r] => (c.is r .mtype).bind (fun _ => lookupS c.fmts r)
+    let f ← (match mtypeTok? ty with
+      | some ("st", k, _) => (num? k).bind staticFormats
+      | some ("rt", r, _) => (c.is r .mtype).bind (fun _ => lookupS c.fmts r)
       | _ => none)
     c.is nm .str
     guard' (strs.length = stringFields f)
@@ -245,6 +275,10 @@ def toOp (r : Regs) (w : List String) : Option (Op × Option (String × Kind)) :
   | "libsyms" :: l :: rest => do pure (.libSyms (← r.lib l) (← syms? rest), none)
   | ["map", p, l, s, e, rl] => do
     pure (.addMapping (← r.proc p) (← r.lib l) (← num? s) (← num? e) (← num? rl), none)
+  | ["kmap", l, s, e, rl] => do pure (.addKernelMapping (← r.lib l) (← num? s) (← num? e) (← num? rl), none)
+  | ["kunmap", s] => do pure (.removeKernelMapping (← num? s), none)
+  | ["unmap", p, s] => do pure (.removeMapping (← r.proc p) (← num? s), none)
+  | ["clearmaps", p] => do pure (.clearMappings (← r.proc p), none)
   | ["string", d, s] => do pure (.string (← unhexStr? s), some (d, .str))
   | ["cat", d, n, col] => do pure (.category (← unhexStr? n) ((← num? col) % 14), some (d, .cat))
   | ["subcat", d, ca, n] => do pure (.subcategory (← r.cat ca) (← unhexStr? n), some (d, .sub))
@@ -276,11 +310,11 @@ def toOp (r : Regs) (w : List String) : Option (Op × Option (String × Kind)) :
   | ["mtype", d, n, ca, f] => do pure (.markerType (← unhexStr? n) (← r.cat ca) (← fmts? f), some (d, .mtype))
   | "marker" :: d :: t :: ty :: nm :: strs => do
     let t ← r.thread t
-    let ty ← (match ty.splitOn ":" with
-      | ["st", k] => (num? k).map MType.static
-      | ["rt", k] => (r.mtype k).map MType.runtime
+    let (ty, tm) ← (match mtypeTok? ty with
+      | some ("st", k, tm) => (num? k).map (fun k => (MType.static k, tm))
+      | some ("rt", k, tm) => (r.mtype k).map (fun h => (MType.runtime h, tm))
       | _ => none)
-    pure (.marker t ty (← r.str nm) (← strs.mapM r.str), some (d, .marker))
+    pure (.marker t ty (← r.str nm) (← strs.mapM r.str) tm, some (d, .marker))
   | ["mstack", t, m, st] => do pure (.markerStack (← r.thread t) (← r.marker m) (← r.optStack st), none)
   | ["counter", d, p] => do pure (.counter (← r.proc p), some (d, .counter))
   | ["csample", ct, _] => do pure (.counterSample (← r.counter ct), none)
@@ -374,6 +408,9 @@ def showThread (t : SerThread) : List String :=
       | some (len, cols, st) => [line "NA" (toString len :: nats cols), line "NA.stack" (opts st)])
   ++ [ line "MK" (toString t.mkLen :: nats t.mkCols), line "MK.cat" (nats t.mkCat), line "MK.name" (nats t.mkName),
        line "MK.stack" (opts t.mkStack),
+       line "MK.start" (t.mkStart.map (fun b => if b then "1" else "0")),
+       line "MK.end" (t.mkEnd.map (fun b => if b then "1" else "0")),
+       line "MK.phase" (nats t.mkPhase),
        line "MK.ustr" (t.mkUstr.map (fun iv => s!"{iv.1}:{iv.2}")) ]
 
 def showProfile (s : SerProfile) : List String :=
@@ -410,20 +447,8 @@ The reference side (`Spec`) never looks at a table index: registers denote descr
 namespace C03
 open PT Proto
 
-structure FrameDesc where
-  name : String
-  cat : String × Nat
-  sub : String
-  lib : Option String
-  addr : Option Nat
-  /-- lib, address, size, name of the native symbol -/
-  nsym : Option (String × Nat × Option Nat × String)
-  depth : Nat
-  file : Option String
-  line : Option Nat
-  col : Option Nat
-  flags : Nat
-deriving DecidableEq, Repr
+-- `FrameDesc` (the index-free description of a frame) lives in `Model/ProfileDecode.lean` (`PT.FrameDesc`):
+-- it is the vocabulary of the theorems `C03_frame_rows` / `C03_canonical_*` as well.
 
 abbrev StackDesc := Option (List FrameDesc)
 
@@ -440,6 +465,8 @@ structure SMarker where
   cat : String × Nat
   stack : StackDesc
   ustr : List String
+  /-- is a start / an end time stored, numeric phase — from the `MarkerTiming` the caller passed -/
+  timing : Bool × Bool × Nat := (true, false, 0)
 deriving DecidableEq
 
 structure SThread where
@@ -472,6 +499,8 @@ structure Spec where
   procs : List SProc := []
   threads : List SThread := []
   symtabs : List (String × List Sym) := []
+  /-- kernel library mappings (global) -/
+  kmaps : List SMap := []
   regs : List (String × SVal) := []
   visible : List Nat := []
   selected : List Nat := []
@@ -479,6 +508,10 @@ structure Spec where
   /-- a mapping with an empty or inverted range was added: the declarative mapping semantics below
   does not cover it, the canonical clause is then not judged -/
   oddMaps : Bool := false
+  /-- every frame handle the implementation returned: (thread, index inside the handle, description) -/
+  frames : List (Nat × Nat × FrameDesc) := []
+  /-- every native symbol handle returned: (thread, index inside the handle, library, address) -/
+  nsymsOut : List (Nat × Nat × String × Nat) := []
   err : Option String := none
 
 /-- the pid / tid string of the `k`-th reuse of a number -/
@@ -530,7 +563,8 @@ def Spec.resolve (s : Spec) (t : Nat) (mode k l a : String) : Option SAddr := do
   if mode = "abs" then
     let th ← s.threads[t]?
     let pr ← s.procs[th.proc]?
-    match pr.maps.find? (fun m => decide (m.start ≤ adj) && decide (adj < m.end_)) with
+    -- kernel mappings are consulted first, then the process's
+    match (s.kmaps ++ pr.maps).find? (fun m => decide (m.start ≤ adj) && decide (adj < m.end_)) with
     | some m => pure (.inLib (m.rel + (adj - m.start)) m.lib)
     | none => pure (.unknown adj)
   else
@@ -571,7 +605,12 @@ def Spec.step (s : Spec) (n : Nat) (w : List String) (out : String) : Spec :=
     if out = "skipped" then s else s.fail s!"op {n}: operand register unset but outcome `{out}`"
   let frameOp (s : Spec) (d : String) (t : Nat) (desc : FrameDesc) (mismatch : Bool) (mayPanic : Bool) : Spec :=
     let (s, go) := s.outcome n out mismatch mayPanic
-    if go then s.setReg d (.frame t desc) else s
+    if !go then s else
+    -- `h <thread> <index>`: the numbers inside the returned FrameHandle
+    let s := match (words out).map num? with
+      | [_, some _, some i] => { s with frames := (t, i, desc) :: s.frames }
+      | _ => s
+    s.setReg d (.frame t desc)
   match w with
   | ["process", d, pid, _, _] =>
     match num? pid with
@@ -625,6 +664,33 @@ def Spec.step (s : Spec) (n : Nat) (w : List String) (out : String) : Spec :=
       s.modProc p (fun pr => { pr with maps :=
         ⟨st, en, rl, l⟩ :: pr.maps.filter (fun m => !(decide (m.start < en) && decide (st < m.end_))) })
     | _, _, _, _, _ => skipped s
+  | ["kmap", l, st, en, rl] =>
+    match s.libR l, num? st, num? en, num? rl with
+    | some l, some st, some en, some rl =>
+      let (s, go) := s.outcome n out false true
+      let s := if st < en then s else { s with oddMaps := true }
+      if !go then s else
+      { s with kmaps := ⟨st, en, rl, l⟩ :: s.kmaps.filter (fun m => !(decide (m.start < en) && decide (st < m.end_))) }
+    | _, _, _, _ => skipped s
+  | ["kunmap", st] =>
+    match num? st with
+    | some st =>
+      let (s, go) := s.outcome n out false false
+      if !go then s else { s with kmaps := s.kmaps.filter (fun m => m.start ≠ st) }
+    | none => s
+  | ["unmap", p, st] =>
+    -- remove_lib_mapping: the mapping that *starts* at the address is gone, nothing else changes
+    match s.procR p, num? st with
+    | some p, some st =>
+      let (s, go) := s.outcome n out false false
+      if !go then s else s.modProc p (fun pr => { pr with maps := pr.maps.filter (fun m => m.start ≠ st) })
+    | _, _ => skipped s
+  | ["clearmaps", p] =>
+    match s.procR p with
+    | some p =>
+      let (s, go) := s.outcome n out false false
+      if !go then s else s.modProc p (fun pr => { pr with maps := [] })
+    | none => skipped s
   | ["string", d, x] =>
     match unhexStr? x with
     | some x => let (s, go) := s.outcome n out false false; if go then s.setReg d (.str x) else s
@@ -675,7 +741,11 @@ def Spec.step (s : Spec) (n : Nat) (w : List String) (out : String) : Spec :=
     match s.threadR t, s.libR l, num? a, optNum? sz, unhexStr? nm with
     | some t, some l, some a, some sz, some nm =>
       let (s, go) := s.outcome n out false false
-      if !go then s else (s.registerNsym t l ⟨a, sz, nm⟩).setReg d (.nsym t l a)
+      if !go then s else
+      let s := match (words out).map num? with
+        | [_, some _, some j] => { s with nsymsOut := (t, j, l, a) :: s.nsymsOut }
+        | _ => s
+      (s.registerNsym t l ⟨a, sz, nm⟩).setReg d (.nsym t l a)
     | _, _, _, _, _ => skipped s
   | ["fsym", d, t, mode, k, l, a, nm, ns, f, li, co, dp, sc, fl] =>
     match s.threadR t, s.optStrR nm, s.reg ns, s.optStrR f, optNum? li, optNum? co, num? dp, s.subR sc, num? fl with
@@ -741,10 +811,16 @@ def Spec.step (s : Spec) (n : Nat) (w : List String) (out : String) : Spec :=
     | some c, some f => let (s, go) := s.outcome n out false false; if go then s.setReg d (.mtype c f) else s
     | _, _ => skipped s
   | "marker" :: d :: t :: ty :: nm :: strs =>
-    let tyInfo : Option ((String × Nat) × List Fmt) := match ty.splitOn ":" with
-      | ["st", k] => ((num? k).bind staticSchema).map (fun sc => ((sc.2.1, sc.2.2.1), sc.2.2.2))
-      | ["rt", r] => match s.reg r with | some (.mtype c f) => some (c, f) | _ => none
+    let tyInfo : Option ((String × Nat) × List Fmt) := match mtypeTok? ty with
+      | some ("st", k, _) => ((num? k).bind staticSchema).map (fun sc => ((sc.2.1, sc.2.2.1), sc.2.2.2))
+      | some ("rt", r, _) => match s.reg r with | some (.mtype c f) => some (c, f) | _ => none
       | _ => none
+    -- specification side of `MarkerTiming`: Instant = start only, phase 0; Interval = both, 1;
+    -- IntervalStart = start only, 2; IntervalEnd = end only, 3
+    let tmw : String := ((ty.splitOn ":")[2]?).getD "i"
+    let timing : Bool × Bool × Nat :=
+      if tmw = "v" then (true, true, 1) else if tmw = "s" then (true, false, 2)
+      else if tmw = "e" then (false, true, 3) else (true, false, 0)
     match s.threadR t, tyInfo, s.strR nm, strs.mapM s.strR with
     | some t, some (c, f), some nm, some vals =>
       let (s, go) := s.outcome n out false false
@@ -753,7 +829,7 @@ def Spec.step (s : Spec) (n : Nat) (w : List String) (out : String) : Spec :=
       | none => s
       | some th =>
         let ustr := ((f.filter (· ≠ .n)).zip vals).filter (·.1 = .u) |>.map (·.2)
-        (s.modThread t (fun th => { th with markers := th.markers ++ [⟨nm, c, none, ustr⟩] })).setReg d
+        (s.modThread t (fun th => { th with markers := th.markers ++ [⟨nm, c, none, ustr, timing⟩] })).setReg d
           (.marker t th.markers.length)
     | _, _, _, _ => skipped s
   | ["mstack", t, m, st] =>
@@ -843,7 +919,7 @@ def parseThread (ls : List String) : Except String (SerThread × List String) :=
     | none => bad lNA
     | some (na, rest) =>
     match rest with
-    | lMK :: lMkCat :: lMkName :: lMkStack :: lMkUstr :: rest =>
+    | lMK :: lMkCat :: lMkName :: lMkStack :: lMkStart :: lMkEnd :: lMkPhase :: lMkUstr :: rest =>
       let r : Option SerThread := do
         let tw ← tagged "thread" lt
         let (pid, tid, main, pn, nm) ← (match tw with
@@ -885,14 +961,17 @@ def parseThread (ls : List String) : Except String (SerThread × List String) :=
           mkLen := mkLen, mkCols := mkCols,
           mkCat := ← (tagged "MK.cat" lMkCat).bind nats?, mkName := ← (tagged "MK.name" lMkName).bind nats?,
           mkStack := ← (tagged "MK.stack" lMkStack).bind opts?,
-          mkUstr := ← (tagged "MK.ustr" lMkUstr).bind (·.mapM parseUstr) }
+          mkUstr := ← (tagged "MK.ustr" lMkUstr).bind (·.mapM parseUstr),
+          mkStart := ← (tagged "MK.start" lMkStart).bind (·.mapM flag?),
+          mkEnd := ← (tagged "MK.end" lMkEnd).bind (·.mapM flag?),
+          mkPhase := ← (tagged "MK.phase" lMkPhase).bind nats? }
       match r with
       | some t => .ok (t, rest)
       | none =>
         -- name the first line that does not parse (a missing column prints `x` / `missing` / `?`)
         let all := [lt, lS, lFT, lFunc, lCat, lSub, lLine, lCol, lAddr, lNsym, lDepth, lFN, lFnName, lFnFlags, lFnRes,
           lFnFile, lRT, lRtLib, lRtName, lNS, lNsAddr, lNsSize, lNsLib, lNsName, lST, lStPre, lStFrame, lSA, lSaStack,
-          lNA, lMK, lMkCat, lMkName, lMkStack, lMkUstr]
+          lNA, lMK, lMkCat, lMkName, lMkStack, lMkStart, lMkEnd, lMkPhase, lMkUstr]
         let culprit := all.find? (fun l => (words l).any (fun w => w = "x" || w = "?" || w = "missing" || w.endsWith ":x" || w.endsWith ":noschema"))
         .error s!"a table column is missing or malformed in thread `{lt}`: `{culprit.getD "?"}`"
     | _ => .error "truncated thread tables"
@@ -932,42 +1011,14 @@ def parseTables (ls : List String) : Except String SerProfile :=
 
 /-! ### decoding tables back into descriptions -/
 
-def decodeFrame (s : SerProfile) (t : SerThread) (i : Nat) : Option FrameDesc := do
-  let func ← t.ftFunc[i]?
-  let name ← (t.fnName[func]?).bind (t.strings[·]?)
-  let file ← (match ← t.fnFile[func]? with
-    | none => some none
-    | some f => (t.strings[f]?).map some)
-  let flags ← t.fnFlags[func]?
-  let lib ← (match ← t.fnRes[func]? with
-    | none => some none
-    | some r => do
-      let l ← (t.rtLib[r]?).bind (s.libs[·]?)
-      -- the resource's name is the library's display name (`LibraryInfo::name`); `l` is its identity
-      let rn ← (t.rtName[r]?).bind (t.strings[·]?)
-      if rn = libDisplayName l then pure (some l) else none)
-  let c ← (t.ftCat[i]?).bind (s.cats[·]?)
-  let sub ← (t.ftSub[i]?).bind (c.2.2[·]?)
-  let nsym ← (match ← t.ftNsym[i]? with
-    | none => some none
-    | some n => do
-      let l ← (t.nsLib[n]?).bind (s.libs[·]?)
-      let nm ← (t.nsName[n]?).bind (t.strings[·]?)
-      pure (some (l, ← t.nsAddr[n]?, ← t.nsSize[n]?, nm)))
-  pure ⟨name, (c.1, c.2.1), sub, lib, ← t.ftAddr[i]?, nsym, ← t.ftDepth[i]?, file, ← t.ftLine[i]?, ← t.ftCol[i]?, flags⟩
+-- `decodeFrame` = `PT.decodeFrame` (`rowFrame` then `descOfFrame`), see `Model/ProfileDecode.lean`
 
-/-- frames of stack `i`, root first; `fuel` bounds the walk (prefixes point to earlier rows) -/
-def decodeStack (s : SerProfile) (t : SerThread) : Nat → Nat → Option (List FrameDesc)
-  | 0, _ => none
-  | fuel + 1, i => do
-    let f ← (t.stFrame[i]?).bind (decodeFrame s t)
-    match ← t.stPrefix[i]? with
-    | none => pure [f]
-    | some p => do pure ((← decodeStack s t fuel p) ++ [f])
+-- `decodeStack` = `PT.decodeStack` (walk `stackTable.prefix` from the row, decode every frame), the vocabulary of
+-- `C03_canonical_stack_decoded`; `wf` (checked first) guarantees `prefix[i] < i`, so the fuel `i + 1` suffices
 
 def decodeOptStack (s : SerProfile) (t : SerThread) : Option Nat → Option StackDesc
   | none => some none
-  | some i => (decodeStack s t (t.stLen + 1) i).map some
+  | some i => (decodeStack s t i).map some
 
 def msEq {α : Type} [DecidableEq α] (a b : List α) : Bool :=
   decide (a.length = b.length) && a.all (fun x => a.count x = b.count x)
@@ -1065,6 +1116,14 @@ def checkIdentity (sp : Spec) (s : SerProfile) : Option String :=
   | some c => some s!"counter {c}: pid or mainThreadIndex does not denote the first thread of the process the caller named"
   | none => none
 
+/-- the caller's view (`PT.CallerView`) computed from the op lines alone -/
+def Spec.view (sp : Spec) : CallerView where
+  procs := sp.procs.map (·.pid)
+  threads := sp.threads.map (fun th => (th.proc, th.tid, th.isMain))
+  counters := sp.counters.map (fun p => (p, ((sp.procs[p]?).map (·.pid)).getD "?"))
+  visible := sp.visible
+  selected := sp.selected
+
 /-- canonical interning of samples and markers of one thread; `none` = fine -/
 def checkThreadCanonical (sp : Spec) (s : SerProfile) (h : Nat) : Option String :=
   match sp.threads[h]? with
@@ -1086,10 +1145,39 @@ def checkThreadCanonical (sp : Spec) (s : SerProfile) (h : Nat) : Option String 
             let cat := ((st.mkCat[i]?).bind (s.cats[·]?)).map (fun c => (c.1, c.2.1))
             let stack := (st.mkStack[i]?).bind (decodeOptStack s st)
             let ustr := ((st.mkUstr.filter (·.1 = i)).mapM (fun iv => st.strings[iv.2]?))
-            !(name = some m.name && cat = some m.cat && stack = some m.stack && ustr = some m.ustr))
+            let timing := match st.mkStart[i]?, st.mkEnd[i]?, st.mkPhase[i]? with
+              | some a, some b, some ph => some (a, b, ph)
+              | _, _, _ => none
+            !(name = some m.name && cat = some m.cat && stack = some m.stack && ustr = some m.ustr
+              && timing = some m.timing))
         match badm with
-        | some i => some s!"tid={th.tid}: marker {i} does not carry the name / category / stack / strings the caller supplied"
+        | some i => some s!"tid={th.tid}: marker {i} does not carry the name / category / stack / strings / timing the caller supplied"
         | none => none
+
+/-- every frame handle denotes, after serialization, the frame the caller described — whether or not a
+sample / marker refers to it; every frame row decodes; every resource row is named after its library -/
+def checkFramesCanonical (sp : Spec) (s : SerProfile) : Option String :=
+  match s.threads.find? (fun st => !resNamesOk s st) with
+  | some st => some s!"tid={st.tid}: a resourceTable row is not named after its library"
+  | none =>
+  match s.threads.find? (fun st => !(List.range st.ftLen).all (fun i => (decodeFrame s st i).isSome)) with
+  | some st => some s!"tid={st.tid}: a frame row cannot be decoded"
+  | none =>
+  let bad := sp.frames.find? (fun f =>
+    match (sp.threads[f.1]?).bind (fun th => (posOfTid s th.tid).bind (s.threads[·]?)) with
+    | none => true
+    | some st => decodeFrame s st f.2.1 != some f.2.2)
+  match bad with
+  | some f => some s!"frame handle ({f.1}, {f.2.1}) does not decode to the frame the caller supplied"
+  | none =>
+  -- native symbol handles: row `j` is (library, address, size and name of the first registration)
+  let badn := sp.nsymsOut.find? (fun n =>
+    match (sp.threads[n.1]?).bind (fun th => (posOfTid s th.tid).bind (s.threads[·]?)), sp.nsymInfo n.1 n.2.2.1 n.2.2.2 with
+    | some st, some (sz, nm) => decodeNsym s st n.2.1 != some (n.2.2.1, n.2.2.2, sz, nm)
+    | _, _ => true)
+  match badn with
+  | some n => some s!"native symbol handle ({n.1}, {n.2.1}) does not decode to the symbol the caller registered"
+  | none => none
 
 /-- allocation samples of a process live on its first thread; `none` = fine -/
 def checkAllocCanonical (sp : Spec) (s : SerProfile) (p : Nat) : Option String :=
@@ -1130,11 +1218,17 @@ def judge (ops impl : List String) : Bool × String :=
         (false, "[alloc-foreign-stack] " ++ whyWf s)
       else (false, whyWf s)
     else
+    -- the identity clauses: `PT.identOk` is the conclusion of theorem `C03_identity`; `checkIdentity`
+    -- (the first round's formulation of the same clauses) names the failing clause and stays a verdict
     match checkIdentity sp s with
     | some e => (false, e)
     | none =>
+    if !identOk sp.view s then (false, "identity clauses (identOk) violated") else
     if sp.oddMaps then (true, "ok (canonical clause not judged: empty or inverted mapping range)") else
     match (List.range sp.threads.length).findSome? (checkThreadCanonical sp s) with
+    | some e => (false, e)
+    | none =>
+    match checkFramesCanonical sp s with
     | some e => (false, e)
     | none =>
     match (List.range sp.procs.length).findSome? (fun p =>
